@@ -227,6 +227,12 @@ PARTS = {
             [{"o": "reset", "mode": "ip4", "vote_min": 2, "vote_dur": 120}] + [{"o": "established", "rec": "p%d:1:v4" % k, "dir": "Out"} for k in range(1, 7)]
             + [{"o": "response_in", "req": "@p%d" % k, "body": {"t": "pong", "seq": 1, "sock": a}} for k, a in ((1, "X4"), (2, "Y4"), (3, "X4"), (4, "Y4"), (5, "X4"))]
             + [{"o": "advance", "ms": 36001000}, {"o": "response_in", "req": "@p2", "body": {"t": "pong", "seq": 1, "sock": "Z4"}}],
+            # three addresses: leader X4 (3 votes), rival Y4 (2, within the margin), straggler Z4 (1): no clear majority, whatever order the
+            # votes are tallied in - the tally runs again (in another order of the hash map) at every further PONG
+            [{"o": "reset", "mode": "ip4", "vote_min": 2, "vote_dur": 3600}] + [{"o": "established", "rec": "p%d:1:v4" % k, "dir": "Out"} for k in range(1, 8)]
+            + [{"o": "response_in", "req": "@p%d" % k, "body": {"t": "pong", "seq": 1, "sock": a}} for k, a in ((1, "X4"), (2, "Y4"), (3, "X4"), (4, "Y4"), (5, "X4"), (6, "Z4"))]
+            + sum([[{"o": "advance", "ms": 36001000}, {"o": "response_in", "req": "@p6", "body": {"t": "pong", "seq": 1, "sock": "Z4"}},
+                    {"o": "response_in", "req": "@p4", "body": {"t": "pong", "seq": 1, "sock": "Y4"}}] for _ in range(6)], []),
             # the application's event stream overflows once (120 events in one step, it holds 100); a later address change is still announced
             [{"o": "reset", "mode": "ip4", "vote_min": 2, "vote_dur": 120}] + [{"o": "established", "rec": "p%d:1:v4" % k, "dir": "Out"} for k in range(1, 4)]
             + [{"o": "flood", "n": 120}, {"o": "poke"}]
@@ -280,7 +286,7 @@ PARTS = {
         mc={"quick": ["MC_Handler_init.cfg"], "thorough": ["MC_Handler_init.cfg", "MC_Handler_tiny.cfg", "MC_Handler_atkq.cfg"]},
         goals_cfg="MC_Handler_goal.cfg",
         goals=["GoalSecondWay", "GoalNoRecordHs", "GoalRekeyPending", ("GoalRekeyReleasesPending", "MC_Handler_goalenr.cfg"), "GoalEnrlessDone", "GoalTimeoutAll", "GoalPendingAfterExpiredChallenge", "GoalBadSigKeepsChallenge", "GoalBadThenGoodHs", "GoalWayAfterReplay", ("GoalSendAfterRotateBack", "MC_Handler_goalrot.cfg"),
-               ("GoalForgedHs", "MC_Handler_goalatk.cfg"), ("GoalReplayedHs", "MC_Handler_goalatk.cfg"), ("GoalJunkSigHs", "MC_Handler_goalatk.cfg"), ("GoalForgedHs", "MC_Handler_goaled.cfg"), ("GoalJunkSigHs", "MC_Handler_goaled.cfg"), ("GoalReplayUnverifiableHs", "MC_Handler_goalsib.cfg"), ("GoalForeignWayOnHs", "MC_Handler_goalsib.cfg"), ("GoalReplayMsgFromSibling", "MC_Handler_goalsib.cfg"), "GoalWayTwiceWithSession", ("GoalZeroKeyAfterRekey", "MC_Handler_goalzero.cfg"), ("GoalForeignEnrAnswer", "MC_Handler_goalnoenr.cfg"), ("GoalLateEnrAnswer", "MC_Handler_goalnoenr.cfg")],
+               ("GoalForgedHs", "MC_Handler_goalatk.cfg"), ("GoalReplayedHs", "MC_Handler_goalatk.cfg"), ("GoalJunkSigHs", "MC_Handler_goalatk.cfg"), ("GoalForgedHs", "MC_Handler_goaled.cfg"), ("GoalJunkSigHs", "MC_Handler_goaled.cfg"), ("GoalReplayUnverifiableHs", "MC_Handler_goalsib.cfg"), ("GoalForeignWayOnHs", "MC_Handler_goalsib.cfg"), ("GoalReplayMsgFromSibling", "MC_Handler_goalsib.cfg"), "GoalWayTwiceWithSession", ("GoalZeroKeyAfterRekey", "MC_Handler_goalzero.cfg"), ("GoalForeignEnrAnswer", "MC_Handler_goalnoenr.cfg"), ("GoalLateEnrAnswer", "MC_Handler_goalnoenr.cfg"), ("GoalSecondRequestEnrless", "MC_Handler_goalnoenr.cfg")],
         sim={"quick": [dict(cfg="MC_Handler_sim.cfg", num=160, depth=40)], "thorough": [dict(cfg="MC_Handler_sim.cfg", num=1000, depth=60)]},
         fixed_behaviours=[
             # more outcomes at once than the event channel to the application holds (50): 56 requests to a silent peer, nobody reads events
